@@ -351,7 +351,9 @@ def report_check(ctx, account=True):
     """See the module docstring.  Registers violations / drift on ctx."""
     progs = _programs(ctx)
     for p in progs:
-        p.setdefault("mustops", ["Stats"])      # fault-free programs: scale-stats must report
+        # fault-free programs: scale-stats must report; the data-writing commands the report is
+        # compared with must succeed too (pipeline_check.must_ops drops this for fault programs)
+        p.setdefault("mustops", ["Stats", "Vol", "Slices", "Compute", "Convert", "AllInOne"])
     res = pc.run_and_judge(ctx, progs, workers=12, chunk=100, label="report")
     summary = {"programs": len(res), "stats_runs": 0, "stats_runs_on_produced_data": 0, "verdicts": {}}
     for p, case, (st, clause, pos) in res:
